@@ -278,3 +278,40 @@ Definition c12_route_case (rows : list (list Q)) (stored stored2 : list nat) : n
          (length stored =? length rows)%nat && (length stored2 =? length rows)%nat ].
 Definition c12_route_case_z (rows : list (list Z)) (stored stored2 : list nat) : nat :=
   c12_route_case (map (map inject_Z) rows) stored stored2.
+
+(* ================= degenerate patches in the guard =================
+   check_patch_conistency evaluates  np.any(distance / radii > rtol)  on float64 arrays.  A patch that holds a
+   single object, or several objects at one position, has the stored radius 0 (created or restored, patch-id or
+   given-centre mode).  The rule: a centre that is displaced at all is farther away than rtol times a zero radius -
+   a zero radius makes every displacement "large", never "small". *)
+(* the test of one patch in division-free form: refused iff distance > rtol * radius *)
+Definition patch_refused (d r rtol : Q) : bool := negb (Qleb d (rtol * r)).
+(* what the code computes: the float64 quotient of two non-negative numbers - x / 0 is +inf, 0 / 0 is nan -
+   and a comparison  > rtol  that is False for nan *)
+Inductive fquot := Fin (q : Q) | PosInf | NaN.
+Definition fdiv (d r : Q) : fquot :=
+  if Qeqb r 0 then (if Qeqb d 0 then NaN else PosInf) else Fin (d / r).
+Definition fgt (x : fquot) (rtol : Q) : bool :=
+  match x with Fin q => negb (Qleb q rtol) | PosInf => true | NaN => false end.
+Definition patch_refused_ieee (d r rtol : Q) : bool := fgt (fdiv d r) rtol.
+(* the other way to write the quotient: a division by 0 is defined as 0 (np.divide(..., where=radii > 0) into
+   zeros, a guarded ratio helper, ...) - this is also what Coq's own Qdiv does *)
+Definition qdiv0 (d r : Q) : Q := if Qeqb r 0 then 0 else d / r.
+Definition patch_refused_div0 (d r rtol : Q) : bool := negb (Qleb (qdiv0 d r) rtol).
+Definition within_div0 (rtol : Q) (dists radii : list Q) : bool :=
+  forallb (fun dr => negb (patch_refused_div0 (fst dr) (snd dr) rtol)) (combine dists radii).
+
+(* the degenerate clause on its own: wherever the reference catalog's radius is 0, the corresponding centres of
+   every other catalog coincide with the reference centre *)
+Definition zero_radius_aligned (radii : list Q) (others : list (list Q)) : bool :=
+  forallb (fun d => forallb (fun dr => negb (Qeqb (snd dr) 0) || Qleb (fst dr) 0) (combine d radii)) others.
+Definition guard_zero_ok (cats : list gcat) (dt : list (list (list Q))) : bool :=
+  match check_order g_nrec cats with
+  | [] => true
+  | ref :: others => zero_radius_aligned (g_radii (gnth cats ref)) (map (tab dt ref) others)
+  end.
+(* correspondence checker for scenes with degenerate patches: the flags of c12_guardn_case, and 16 when the call
+   was accepted although a zero-radius patch of the reference catalog has a displaced partner *)
+Definition c12_guardd_case (cats : list gcat) (dt : list (list (list Q))) (accepted : bool) : nat :=
+  (c12_guardn_case cats dt accepted +
+   (if negb accepted || negb (ids_match cats) || guard_zero_ok cats dt then 0 else 16))%nat.
